@@ -61,7 +61,8 @@ structure Ord where
   notAllowed : List Node
 deriving DecidableEq, Repr
 
-/-- `order.AccountDiff`: `newOutpoint = some _` iff the ending state is OUTPUT_RECREATED -/
+/-- `order.AccountDiff`: `newOutpoint = some _` iff the ending state is OUTPUT_RECREATED; `newOut` is the
+(value, script) the stored account describes afterwards -/
 structure Diff where
   acct : Key
   newOutpoint : Option OutPoint
@@ -279,7 +280,7 @@ def stagedRow (a : Acct) (d : Diff) : Acct :=
   match d.newOutpoint with
   | some op => { a with outpoint := op, out := d.newOut.getD a.out,
                         version := if d.newVersion > a.version then d.newVersion else a.version }
-  | none => a
+  | none => { a with out := d.newOut.getD a.out }   -- used up: same outpoint and script, value := ending balance
 
 def storerRows (db : DB) (f : Faults) : List Diff → Nat → Option (List Acct)
   | [], _ => some []
